@@ -115,18 +115,21 @@ Definition pow10 (k : N) : N := 10 ^ k.
 Definition B9 : N := 1000000000.
 
 (* value = (-1)^neg * (ip + fp / 10^scale), ip < 10^(precision-scale), fp < 10^scale.
-   None: the serializer returns an error (precision = scale: the integer string "0" is left over). *)
-Definition enc_decimal (prec scale : N) (neg : bool) (ip fp : N) : option bytes :=
+   The digit groups before the sign handling: leftover integer digits, full 9-digit integer groups,
+   full 9-digit fractional groups, leftover fractional digits. *)
+Definition enc_decimal_raw (prec scale ip fp : N) : bytes :=
   let intg := prec - scale in
-  if intg =? 0 then None else
   let intg0 := intg / 9 in let frac0 := scale / 9 in
   let intg0x := intg - intg0 * 9 in let frac0x := scale - frac0 * 9 in
-  let raw :=
-    be_bytes (dig2bytes intg0x) (ip / pow10 (9 * intg0))
-    ++ flat_map (be_bytes 4) (to_base B9 (N.to_nat intg0) (ip mod pow10 (9 * intg0)))
-    ++ flat_map (be_bytes 4) (to_base B9 (N.to_nat frac0) (fp / pow10 frac0x))
-    ++ be_bytes (dig2bytes frac0x) (fp mod pow10 frac0x) in
-  match raw with
+  be_bytes (dig2bytes intg0x) (ip / pow10 (9 * intg0))
+  ++ flat_map (be_bytes 4) (to_base B9 (N.to_nat intg0) (ip mod pow10 (9 * intg0)))
+  ++ flat_map (be_bytes 4) (to_base B9 (N.to_nat frac0) (fp / pow10 frac0x))
+  ++ be_bytes (dig2bytes frac0x) (fp mod pow10 frac0x).
+
+(* None: the serializer returns an error (precision = scale: the integer string "0" is left over). *)
+Definition enc_decimal (prec scale : N) (neg : bool) (ip fp : N) : option bytes :=
+  if prec - scale =? 0 then None else
+  match enc_decimal_raw prec scale ip fp with
   | [] => Some []
   | b0 :: r =>
     let pos := N.lxor b0 128 :: r in
@@ -136,14 +139,26 @@ Definition enc_decimal (prec scale : N) (neg : bool) (ip fp : N) : option bytes 
 Fixpoint chunks4 (k : nat) (b : bytes) : list N :=
   match k with O => [] | S k' => be_val (firstn 4 b) :: chunks4 k' (skipn 4 b) end.
 
-(* MySQL bin2decimal *)
-Definition dec_decimal (prec scale : N) (b : bytes) : option (bool * N * N) :=
+Definition dec_decimal_raw (prec scale : N) (raw : bytes) : N * N :=
   let intg := prec - scale in
   let intg0 := intg / 9 in let frac0 := scale / 9 in
   let intg0x := intg - intg0 * 9 in let frac0x := scale - frac0 * 9 in
   let l1 := dig2bytes intg0x in let l2 := (4 * N.to_nat intg0)%nat in
-  let l3 := (4 * N.to_nat frac0)%nat in let l4 := dig2bytes frac0x in
-  if negb (length b =? l1 + l2 + l3 + l4)%nat then None else
+  let l3 := (4 * N.to_nat frac0)%nat in
+  let c1 := firstn l1 raw in let r1 := skipn l1 raw in
+  let c2 := firstn l2 r1 in let r2 := skipn l2 r1 in
+  let c3 := firstn l3 r2 in let c4 := skipn l3 r2 in
+  (be_val c1 * pow10 (9 * intg0) + of_base B9 (chunks4 (N.to_nat intg0) c2),
+   of_base B9 (chunks4 (N.to_nat frac0) c3) * pow10 frac0x + be_val c4).
+
+Definition decimal_len (prec scale : N) : nat :=
+  let intg := prec - scale in
+  let intg0 := intg / 9 in let frac0 := scale / 9 in
+  (dig2bytes (intg - intg0 * 9) + 4 * N.to_nat intg0 + 4 * N.to_nat frac0 + dig2bytes (scale - frac0 * 9))%nat.
+
+(* MySQL bin2decimal *)
+Definition dec_decimal (prec scale : N) (b : bytes) : option (bool * N * N) :=
+  if negb (length b =? decimal_len prec scale)%nat then None else
   match b with
   | [] => Some (false, 0, 0)
   | b0 :: r =>
@@ -151,14 +166,7 @@ Definition dec_decimal (prec scale : N) (b : bytes) : option (bool * N * N) :=
     let pos := if neg then map (fun x => N.lxor x 255) b else b in
     match pos with
     | [] => None
-    | p0 :: pr =>
-      let raw := N.lxor p0 128 :: pr in
-      let c1 := firstn l1 raw in let r1 := skipn l1 raw in
-      let c2 := firstn l2 r1 in let r2 := skipn l2 r1 in
-      let c3 := firstn l3 r2 in let c4 := skipn l3 r2 in
-      let ip := be_val c1 * pow10 (9 * intg0) + of_base B9 (chunks4 (N.to_nat intg0) c2) in
-      let fp := of_base B9 (chunks4 (N.to_nat frac0) c3) * pow10 frac0x + be_val c4 in
-      Some (neg, ip, fp)
+    | p0 :: pr => let '(ip, fp) := dec_decimal_raw prec scale (N.lxor p0 128 :: pr) in Some (neg, ip, fp)
     end
   end.
 
@@ -196,3 +204,192 @@ Definition dec_bit (bits : N) (b : bytes) : option N :=
   if (length b =? set_width bits)%nat then Some (be_val b) else None.
 (* metadata of BIT: bytes<<8 | bits%8 ; the decoder reads bytes + (bits%8 > 0) bytes *)
 Definition bit_meta_len (bits : N) : N := bits / 8 + (if 0 <? bits mod 8 then 1 else 0).
+
+(* ---- FLOAT / DOUBLE: math.Float32bits / Float64bits, little endian.  Values are their IEEE bit patterns. ---- *)
+Definition enc_float (bits : N) : bytes := le_bytes 4 bits.
+Definition dec_float (b : bytes) : option N := if (length b =? 4)%nat then Some (le_val b) else None.
+Definition enc_double (bits : N) : bytes := le_bytes 8 bits.
+Definition dec_double (b : bytes) : option N := if (length b =? 8)%nat then Some (le_val b) else None.
+
+(* ---- JSON binary format (binlog_json_serialization.go): the subset dolt emits — literals, doubles (every
+   number is a float64), strings, arrays, objects, small and large formats ---- *)
+Inductive jv :=
+| JNull | JTrue | JFalse
+| JNum (bits : N)                    (* float64 bit pattern *)
+| JStr (s : bytes)
+| JArr (l : list jv)
+| JObj (l : list (bytes * jv)).      (* keys in sort.Strings order *)
+
+Definition u32 : N := 4294967296.
+Definition u32sub (a b : N) : N := (a + u32 - b mod u32) mod u32.     (* uint32 subtraction *)
+
+(* appendStringLength *)
+Definition json_str_len (n : N) : option bytes :=
+  (* byte(length&0x7F|0x80) = length mod 128 + 128, byte(length>>7|0x80) = (length/128) mod 128 + 128, byte(length>>14) *)
+  if 2097151 <? n then None
+  else if 16383 <? n then Some [n mod 128 + 128; (n / 128) mod 128 + 128; (n / 16384) mod 256]
+  else if 127 <? n then Some [n mod 128 + 128; (n / 128) mod 256]
+  else Some [n].
+
+(* appendForEncoding: byte(value), byte(value>>8) [, byte(value>>16), byte(value>>24)] *)
+Definition json_word (large : bool) (v : N) : bytes := if large then le_bytes 4 (v mod u32) else le_bytes 2 (v mod 65536).
+Definition json_w (large : bool) : N := if large then 4 else 2.
+
+(* value entries + values, starting at offset off; None = "offset too large for small ... encoding" *)
+Fixpoint json_values (large : bool) (es : list (N * bytes)) (off : N) : option (bytes * bytes * N) :=
+  match es with
+  | [] => Some ([], [], off)
+  | (t, e) :: r =>
+    if t =? 4 then
+      match json_values large r off with
+      | Some (ents, vals, off') => Some (4 :: json_word large (hd 0 e) ++ ents, vals, off')
+      | None => None
+      end
+    else if negb large && (u32sub 65535 (N.of_nat (length e)) <? off) then None
+    else match json_values large r ((off + N.of_nat (length e)) mod u32) with
+         | Some (ents, vals, off') => Some (t :: json_word large off ++ ents, e ++ vals, off')
+         | None => None
+         end
+  end.
+
+Definition json_array_layout (large : bool) (es : list (N * bytes)) : option bytes :=
+  let n := N.of_nat (length es) in
+  if negb large && (65535 <? n) then None else
+  let off0 := if large then 8 + n * 5 else 4 + n * 3 in
+  match json_values large es (off0 mod u32) with
+  | None => None
+  | Some (ents, vals, off) => Some (json_word large n ++ json_word large off ++ ents ++ vals)
+  end.
+
+(* key entries: offset word + byte(len), byte(len<<8) — the second length byte is always 0 *)
+Fixpoint json_keys (large : bool) (ks : list bytes) (off : N) : option (bytes * bytes * N) :=
+  match ks with
+  | [] => Some ([], [], off)
+  | k :: r =>
+    if negb large && (u32sub 65535 (N.of_nat (length k)) <? off) then None
+    else match json_keys large r ((off + N.of_nat (length k)) mod u32) with
+         | Some (ents, keys, off') => Some (json_word large off ++ [N.of_nat (length k) mod 256; 0] ++ ents, k ++ keys, off')
+         | None => None
+         end
+  end.
+
+Definition json_object_layout (large : bool) (ks : list bytes) (es : list (N * bytes)) : option bytes :=
+  let n := N.of_nat (length ks) in
+  let off0 := if large then 8 + n * 6 + n * 5 else 4 + n * 4 + n * 3 in
+  match json_keys large ks (off0 mod u32) with
+  | None => None
+  | Some (kents, keys, koff) =>
+    match json_values large es koff with
+    | None => None
+    | Some (ents, vals, off) => Some (json_word large n ++ json_word large off ++ kents ++ ents ++ keys ++ vals)
+    end
+  end.
+
+Fixpoint opt_all {A} (l : list (option A)) : option (list A) :=
+  match l with
+  | [] => Some []
+  | Some x :: r => match opt_all r with Some xs => Some (x :: xs) | None => None end
+  | None :: _ => None
+  end.
+
+(* encodeJsonValue: (type id, bytes) *)
+Fixpoint enc_json (v : jv) : option (N * bytes) :=
+  match v with
+  | JNull => Some (4, [0]) | JTrue => Some (4, [1]) | JFalse => Some (4, [2])
+  | JNum bits => Some (11, le_bytes 8 bits)
+  | JStr s => match json_str_len (N.of_nat (length s)) with Some lb => Some (12, lb ++ s) | None => None end
+  | JArr l =>
+    match opt_all (map enc_json l) with
+    | None => None
+    | Some es =>
+      match json_array_layout false es with
+      | Some b => Some (2, b)
+      | None => match json_array_layout true es with Some b => Some (3, b) | None => None end
+      end
+    end
+  | JObj l =>
+    match opt_all (map (fun kv => enc_json (snd kv)) l) with
+    | None => None
+    | Some es =>
+      match json_object_layout false (map fst l) es with
+      | Some b => Some (0, b)
+      | None => match json_object_layout true (map fst l) es with Some b => Some (1, b) | None => None end
+      end
+    end
+  end.
+
+(* jsonSerializer.serialize: 4-byte little-endian length, type id, value *)
+Definition enc_json_doc (v : jv) : option bytes :=
+  match enc_json v with
+  | Some (t, b) => Some (le_bytes 4 (N.of_nat (S (length b)) mod u32) ++ t :: b)
+  | None => None
+  end.
+
+(* MySQL json_binary.cc parse rules *)
+Definition sub (d : bytes) (off len : N) : bytes := firstn (N.to_nat len) (skipn (N.to_nat off) d).
+
+(* read_variable_length: 7 bits per byte, high bit = continue, at most 5 bytes *)
+Fixpoint json_read_len (k : nat) (d : bytes) (shift acc : N) : option (N * N) :=   (* (length, bytes used) *)
+  match k, d with
+  | S k', b :: r =>
+    let acc' := acc + (b mod 128) * shift in
+    if 128 <=? b then match json_read_len k' r (shift * 128) acc' with Some (l, n) => Some (l, n + 1) | None => None end
+    else Some (acc', 1)
+  | _, _ => None
+  end.
+
+Fixpoint dec_json (fuel : nat) (t : N) (d : bytes) : option jv :=
+  match fuel with
+  | O => None
+  | S f =>
+    if t =? 4 then
+      match d with
+      | b :: _ => if b =? 0 then Some JNull else if b =? 1 then Some JTrue else if b =? 2 then Some JFalse else None
+      | [] => None
+      end
+    else if t =? 11 then (if (8 <=? length d)%nat then Some (JNum (le_val (firstn 8 d))) else None)
+    else if t =? 12 then
+      match json_read_len 5 d 1 0 with
+      | Some (l, n) => if (N.to_nat (n + l) <=? length d)%nat then Some (JStr (sub d n l)) else None
+      | None => None
+      end
+    else if (t =? 2) || (t =? 3) || (t =? 0) || (t =? 1) then
+      let large := (t =? 3) || (t =? 1) in
+      let isobj := (t =? 0) || (t =? 1) in
+      let w := json_w large in
+      if (length d <? N.to_nat (2 * w))%nat then None else
+      let count := le_val (sub d 0 w) in
+      let size := le_val (sub d w w) in
+      if (length d <? N.to_nat size)%nat then None else
+      let kent := if isobj then w + 2 else 0 in
+      let hdr := 2 * w + count * kent + count * (1 + w) in
+      if size <? hdr then None else
+      let body := firstn (N.to_nat size) d in
+      let value i :=
+        let eoff := 2 * w + count * kent + i * (1 + w) in
+        let et := nth (N.to_nat eoff) body 255 in
+        if et =? 4 then dec_json f 4 (sub body (eoff + 1) 1)
+        else let off := le_val (sub body (eoff + 1) w) in
+             if (off <? hdr) || (size <=? off) then None else dec_json f et (sub body off (size - off)) in
+      let idx := map N.of_nat (seq 0 (N.to_nat count)) in
+      if isobj then
+        let key i :=
+          let koff := le_val (sub body (2 * w + i * kent) w) in
+          let klen := le_val (sub body (2 * w + i * kent + w) 2) in
+          if (koff <? hdr) || (size <? koff + klen) then None else Some (sub body koff klen) in
+        match opt_all (map key idx), opt_all (map value idx) with
+        | Some ks, Some vs => Some (JObj (combine ks vs))
+        | _, _ => None
+        end
+      else match opt_all (map value idx) with Some vs => Some (JArr vs) | None => None end
+    else None
+  end.
+
+Definition dec_json_doc (fuel : nat) (b : bytes) : option jv :=
+  if (length b <? 5)%nat then None else
+  let l := le_val (firstn 4 b) in
+  if negb (length b =? 4 + N.to_nat l)%nat then None else
+  match skipn 4 b with
+  | t :: d => dec_json fuel t d
+  | [] => None
+  end.
